@@ -176,18 +176,6 @@ Definition update_best (prev : option (list Z)) (fits : list (list Z)) : list Z 
 Definition update_worst (prev : option (list Z)) (fits : list (list Z)) : list Z :=
   col_fold Z.max (fits ++ match prev with Some b => [b] | None => [] end).
 
-(* selNSGA3WithMemory.__call__ threaded over a sequence of calls; each call contributes the
-   fitness rows (already multiplied by -1) of the fronts it sorted *)
-Fixpoint memory_trace (best worst : option (list Z)) (calls : list (list (list Z)))
-  : list (list Z * list Z) :=
-  match calls with
-  | [] => []
-  | fits :: r =>
-      let b := update_best best fits in
-      let w := update_worst worst fits in
-      (b, w) :: memory_trace (Some b) (Some w) r
-  end.
-
 (* find_extreme_points (lines 577-593) on integer-valued fitnesses (exact in binary64: the products
    with 1e6 stay far below 2^53).  rows = fitnesses, followed by the previous extreme points if any;
    asf[i][n] = max_c (rows[n][c] - best[c]) * (1 if i = c else 1e6);  extreme[i] = rows[argmin_n asf[i][n]] *)
@@ -210,6 +198,20 @@ Definition find_extreme_points (fits : list (list Z)) (best : list Z) (prev : op
   : list (list Z) :=
   let rows := fits ++ match prev with Some e => e | None => [] end in
   map (fun i => nth (argmin_z (map (asf_val best i) rows)) rows []) (seq 0 (length best)).
+
+(* selNSGA3WithMemory.__call__ threaded over a sequence of calls; each call contributes the
+   fitness rows (already multiplied by -1) of the fronts it sorted; the state is
+   (best_point, worst_point, extreme_points), initially (+inf, -inf, None) *)
+Fixpoint memory_trace (best worst : option (list Z)) (ext : option (list (list Z)))
+                      (calls : list (list (list Z))) : list (list Z * list Z * list (list Z)) :=
+  match calls with
+  | [] => []
+  | fits :: r =>
+      let b := update_best best fits in
+      let w := update_worst worst fits in
+      let e := find_extreme_points fits b ext in
+      (b, w, e) :: memory_trace (Some b) (Some w) (Some e) r
+  end.
 
 (* the whole selection, exact instance: association computed by the model *)
 Definition nsga3 {T} (Op : numops T) (eps : T) (fits : list (list T)) (fronts : list (list nat))
